@@ -121,4 +121,23 @@ example :
 example : (((HookState.mk [] [] 0 []).enter 1).1.enter 2).1 =
     ⟨[(0, 1), (2, 2)], [(1, 1), (3, 2)], 4, [2, 1]⟩ := by decide
 
+/-! ### the switch of `disable_extensions` -/
+
+/-- whatever happened inside, leaving a `disable_extensions` context leaves the extensions enabled:
+after any sequence of events that ends with an exit the switch is on (so a single, un-nested use
+restores the initial state, also when an exception propagates). -/
+theorem C13_disable_extensions_exit_enables (events : List Bool) (enabled : Bool) (depth : Nat) :
+    (extSwitch (events ++ [false]) enabled depth).1 = true := by
+  simp [extSwitch, List.foldl_append]
+
+/-- inside a context the switch is off -/
+theorem C13_disable_extensions_enter_disables (events : List Bool) (enabled : Bool) (depth : Nat) :
+    (extSwitch (events ++ [true]) enabled depth).1 = false := by
+  simp [extSwitch, List.foldl_append]
+
+/-- observation (the statement of C13 does not cover it): the exit does not restore the *previous*
+value — after `enter, enter, exit` one context is still open and the extensions are enabled again. -/
+theorem C13_counterexample_nested_disable_extensions :
+    extSwitch [true, true, false] = (true, 1) := by decide
+
 end Quanto
